@@ -128,7 +128,7 @@ def script_of(case):
     code, px, py, po, mip = case
     # px == 2: a primal answer that violates the row x0 + x1 <= 5 (used to observe whether the automatic solution check ran)
     return {'code': code, 'msg': 'scripted result', 'x': (X_VIOL if px == 2 else X_SPEC) if px else 'none', 'y': Y_SPEC if py else 'none',
-            'obj': OBJ_SPEC if po else 'none', 'ismip': mip}
+            'obj': OBJ_SPEC if po else 'none', 'ismip': mip, 'rays': 1}
 
 
 def observe(binary, workdir, nl, case):
@@ -142,7 +142,8 @@ def observe(binary, workdir, nl, case):
             m = re.search(r'; (?:feasrelax )?objective (\S+)\s*$', first)
             o.update(sol=True, first=first, objtxt=m.group(1) if m else None,
                      objword='objective' in first, objno=s['objno'], code=s['code'],
-                     nprimals=s['nprimals'], nduals=s['nduals'], tolviol='Tolerance violations' in s['message'])
+                     nprimals=s['nprimals'], nduals=s['nduals'], tolviol='Tolerance violations' in s['message'],
+                     unbdd=any(x['name'] == 'unbdd' for x in s['suffixes']), dunbdd=any(x['name'] == 'dunbdd' for x in s['suffixes']))
         except (ValueError, IndexError) as e:
             o.update(sol=False, parse_error=str(e), raw=r['sol'][-300:])
     return o
@@ -173,6 +174,15 @@ def judge(orc, case, o):
             f.append(('solution check ran' if o.get('tolviol') else 'solution check skipped', {'message': o['first']}))
     elif px == 1 and o.get('tolviol'):
         f.append(('solution check reports a feasible answer', {'message': o['first']}))
+    # rays (alg:rays default 3): .unbdd is documented for "objective unbounded", .dunbdd for "constraints infeasible";
+    # the undecided class 450-469 may return either
+    cat = orc.cat(code)
+    want_u = True if cat in ('unbounded_feas', 'unbounded_nofeas') else None if cat == 'limit_infunb' else False
+    want_d = True if cat == 'infeasible' else None if cat == 'limit_infunb' else False
+    if want_u is not None and o.get('unbdd') != want_u:
+        f.append(('unbounded ray returned' if o.get('unbdd') else 'unbounded ray missing', {'message': o['first']}))
+    if want_d is not None and o.get('dunbdd') != want_d:
+        f.append(('infeasibility ray returned' if o.get('dunbdd') else 'infeasibility ray missing', {'message': o['first']}))
     return f
 
 
@@ -251,12 +261,14 @@ def self_test(orc):
     """the oracle must reject deliberately wrong observations"""
     bad = []
     ok_obs = {'rc': 0, 'sol': True, 'first': 'x: scripted result; objective 2.5', 'objtxt': '2.5', 'objword': True,
-              'objno': 0, 'code': 50, 'nprimals': 2, 'nduals': 1}
+              'objno': 0, 'code': 50, 'nprimals': 2, 'nduals': 1, 'tolviol': False, 'unbdd': False, 'dunbdd': False}
     if judge(orc, (50, 1, 1, 1, 0), ok_obs): bad.append('conforming run rejected')
     o = dict(ok_obs, first='x: scripted result', objtxt=None, objword=False)
     if not judge(orc, (50, 1, 1, 1, 0), o): bad.append('missing objective accepted for code 50')
     o = dict(ok_obs, code=250)
     if not judge(orc, (250, 1, 1, 1, 0), o): bad.append('objective accepted for code 250')
+    o = dict(ok_obs, unbdd=True)
+    if not judge(orc, (50, 1, 1, 1, 0), o): bad.append('unbounded ray accepted for code 50')
     o = dict(ok_obs, code=51)
     if not judge(orc, (50, 1, 1, 1, 0), o): bad.append('wrong .sol code accepted')
     if orc.predicate('IsProblemInfeasible', 299) is not True or orc.predicate('IsProblemInfeasible', 300) is not False:
@@ -328,6 +340,10 @@ def _main(chk, tier, binary):
            'objective in message': 'C10 objective in message although no solution candidate is indicated for %s',
            '.sol solve code differs from reported code': 'C10 .sol solve code differs from the reported code for %s',
            'driver failed': 'C10 driver failed (non-zero exit or no readable .sol) for %s',
+           'unbounded ray returned': 'C10 .unbdd ray returned for a code outside the unbounded / undecided classes: %s',
+           'unbounded ray missing': 'C10 .unbdd ray not returned for the unbounded class: %s',
+           'infeasibility ray returned': 'C10 .dunbdd ray returned for a code outside the infeasible / undecided classes: %s',
+           'infeasibility ray missing': 'C10 .dunbdd ray not returned for the infeasible class: %s',
            'solution check skipped': 'C10 violating answer not reported by the solution check (treated as infeasible class) for %s',
            'solution check ran': 'C10 solution check ran on an answer of the infeasible class (sol:chk:infeas=0) for %s',
            'solution check reports a feasible answer': 'C10 solution check reports a feasible answer for %s'}
@@ -392,7 +408,7 @@ def _main(chk, tier, binary):
 
     chk.cov['evaluations'] = chk.cov.get('driver_runs', 0) + chk.cov.get('predicate_evaluations', 0) + chk.cov.get('bang_runs', 0)
     vcheck.finalize_classes(chk)
-    chk.set('rule', 'complete enumeration: every status code in [%d, %d] x {primal, dual, objective value present/absent}%s plus, per code, one complete answer whose primal point violates the row (does the automatic solution check treat the code as the infeasible class?), '
+    chk.set('rule', 'complete enumeration: every status code in [%d, %d] x {primal, dual, objective value present/absent}%s plus, per code, one complete answer whose primal point violates the row (does the automatic solution check treat the code as the infeasible class?); the scripted solver offers rays, so the .unbdd / .dunbdd suffixes show which codes the driver treats as unbounded / infeasible, '
             'one driver process per case (scripted backend on the real RunBackendApp path, tiny LP with one objective); '
             'the six StdBackend classification predicates called on the same backend class for every code; `-!` once. '
             'Oracle: range table parsed from doc/source/features-guide.rst. A class is (documented class of the code, '
